@@ -193,6 +193,9 @@ func (x *Exec) model(st *State, fr *Frame, dst ssa.Value, callee *ssa.Function, 
 		wg := st.ghostArr("wg", SInt)
 		x.siteAsserts(st, fr, "wgdone:"+x.argPath(fr, 0), pos)
 		x.givesAt(st, fr, "wgdone:"+x.argPath(fr, 0), pos)
+		if subj, ok := st.TokenSubject[r.Key()]; ok {
+			x.setMark(st, "wgreturned", r, subj)
+		}
 		k := x.site(st, "wgdone")
 		mine := st.ghostArr("wgmine", SInt)
 		// Done() needs a token this thread owns: otherwise the counter may go negative (panic)
@@ -205,7 +208,15 @@ func (x *Exec) model(st *State, fr *Frame, dst ssa.Value, callee *ssa.Function, 
 		x.siteAsserts(st, fr, "wgwait:"+x.argPath(fr, 0), pos)
 		x.interfere(st, "WaitGroup.Wait")
 		st.Assume(Eq(Select(st.ghostArr("wg", SInt), r), IntLit(0)))
+		{
+			// WaitGroup model: with the counter at zero every token that was bound to a subject has been returned
+			pend := st.heapGet("G$mark$wgpending", ArrSort(SInt, ArrSort(SInt, SBool)))
+			ret := st.heapGet("G$mark$wgreturned", ArrSort(SInt, ArrSort(SInt, SBool)))
+			sx := BoundVar("x", SInt)
+			st.Assume(Forall([]*Term{sx}, Implies(Select(Select(pend, r), sx), Select(Select(ret, r), sx))))
+		}
 		x.joinAt(st, fr, r, x.argPath(fr, 0), pos)
+		x.joinAllAt(st, fr, r, x.argPath(fr, 0), pos)
 		st.Trace = append(st.Trace, "wg.Wait returns")
 	case "encoding/json.Marshal":
 		return x.jsonMarshal(st, fr, dst, args, pos)
@@ -1219,6 +1230,95 @@ func (x *Exec) joinAt(st *State, fr *Frame, wref *Term, ap string, pos token.Pos
 	}
 }
 
+// splitConsumes: "consumes-wg W as SUBJ" -> (W, SUBJ).
+func splitConsumes(text string) (string, string) {
+	t := strings.TrimPrefix(text, "consumes-wg ")
+	if i := strings.Index(t, " as "); i >= 0 {
+		return strings.TrimSpace(t[:i]), strings.TrimSpace(t[i+4:])
+	}
+	return strings.TrimSpace(t), ""
+}
+
+func (x *Exec) setMark(st *State, name string, a, b *Term) {
+	fam := "G$mark$" + name
+	m := st.heapGet(fam, ArrSort(SInt, ArrSort(SInt, SBool)))
+	st.Heap[fam] = Store(m, a, Store(Select(m, a), b, True))
+}
+
+// joinAllAt: `ghost joins-all W: F` - W is a WaitGroup whose tokens are bound to subjects and returned only by
+// goroutines running F (`ghost consumes-wg W as SUBJ`, checked over all contracts); F proves a stable fact about its
+// subject at its Done (`gives @wgdone`); so for every subject whose token has been returned that fact holds, and by the
+// WaitGroup model (assumed at Wait) that is every subject a token was ever bound to.
+func (x *Exec) joinAllAt(st *State, fr *Frame, wref *Term, ap string, pos token.Pos) {
+	if x.FC == nil {
+		return
+	}
+	for _, cl := range x.FC.Of("ghost") {
+		if !strings.HasPrefix(cl.Text, "joins-all "+ap+":") {
+			continue
+		}
+		fname := strings.TrimSpace(strings.TrimPrefix(cl.Text, "joins-all "+ap+":"))
+		fn := x.V.P.Funcs[x.Fn.Pkg.Pkg.Name()+"."+fname]
+		if fn == nil {
+			unsupportedf("ghost joins-all: unknown function %s", fname)
+		}
+		ffc := x.V.C.Funcs[x.V.P.FuncKey(fn)]
+		if ffc == nil {
+			unsupportedf("ghost joins-all: %s has no contract", fname)
+		}
+		field := ap
+		if i := strings.LastIndex(ap, "."); i >= 0 {
+			field = ap[i+1:]
+		}
+		subjName := ""
+		// every contract that binds tokens of a WaitGroup field of this name to subjects must be F's
+		for key, ofc := range x.V.C.Funcs {
+			for _, oc := range ofc.Of("ghost") {
+				if !strings.HasPrefix(oc.Text, "consumes-wg ") {
+					continue
+				}
+				w, sj := splitConsumes(oc.Text)
+				if sj == "" {
+					continue
+				}
+				of := w
+				if i := strings.LastIndex(w, "."); i >= 0 {
+					of = w[i+1:]
+				}
+				if of != field {
+					continue
+				}
+				if key != x.V.P.FuncKey(fn) {
+					unsupportedf("ghost joins-all %s: tokens of a WaitGroup field %s are also returned by %s", ap, field, key)
+				}
+				subjName = sj
+			}
+		}
+		if subjName == "" {
+			unsupportedf("ghost joins-all %s: %s does not declare `ghost consumes-wg ... as SUBJECT`", ap, fname)
+		}
+		var subjType types.Type
+		for _, p := range fn.Params {
+			if p.Name() == subjName {
+				subjType = p.Type()
+			}
+		}
+		if subjType == nil {
+			unsupportedf("ghost joins-all: the subject %s must be a parameter of %s", subjName, fname)
+		}
+		ret := st.heapGet("G$mark$wgreturned", ArrSort(SInt, ArrSort(SInt, SBool)))
+		sx := BoundVar("x", SInt)
+		env := &Env{V: x.V, X: x, St: st, Vars: map[string]*Val{subjName: {T: subjType, Term: sx}}, Pkg: fn.Pkg.Pkg, Epoch: st.Epoch}
+		for _, gc := range ffc.Of("gives") {
+			if !strings.HasPrefix(gc.Site, "wgdone:") {
+				continue
+			}
+			st.Assume(Forall([]*Term{sx}, Implies(Select(Select(ret, wref), sx), x.V.evalBool(env, gc.E))))
+			x.note("join rule (all): for every subject whose token of " + ap + " has been returned, the fact `" + gc.Text + "` given by " + fname + " holds (proved stable at its WaitGroup.Done); at Wait every bound token has been returned (WaitGroup model)")
+		}
+	}
+}
+
 // holdsLockClass: the thread holds a lock that is monitor "pkg.Type.lockfield" of some object (in write mode if asked).
 func (x *Exec) holdsLockClass(st *State, cls string, write bool) bool {
 	for _, h := range st.Held {
@@ -1666,11 +1766,21 @@ func (x *Exec) goStmt(st *State, fr *Frame, i *ssa.Go) {
 				switch {
 				case strings.HasPrefix(cl.Text, "consumes-wg "):
 					// the new goroutine takes over one WaitGroup token of the spawning thread
-					e, err := ParseExpr(strings.TrimPrefix(cl.Text, "consumes-wg "))
+					wgText, subjText := splitConsumes(cl.Text)
+					e, err := ParseExpr(wgText)
 					if err != nil {
 						panic(unsupported{err.Error()})
 					}
 					r := x.refOf(x.V.syncRef(env, e))
+					if subjText != "" {
+						// the token is bound to a subject: from now on "a token of this WaitGroup is out for this object"
+						se, err := ParseExpr(subjText)
+						if err != nil {
+							panic(unsupported{err.Error()})
+						}
+						sv := x.V.eval(env, se)
+						x.setMark(st, "wgpending", r, sv.Term)
+					}
 					mine := st.ghostArr("wgmine", SInt)
 					x.oblige(st, "pre", fmt.Sprintf("pre:wg-token-handed-over@go:%s#%d", name, k), Ge(Select(mine, r), IntLit(1)), i.Pos(), cl.Text)
 					st.setGhostArr("wgmine", Store(mine, r, Sub(Select(mine, r), IntLit(1))))
